@@ -33,6 +33,23 @@ Proof.
 Qed.
 Print Assumptions c20_flush_barrier.
 
+(* The barrier per data id, for ANY history (in particular any linearisation of concurrent writers
+   and flushers): if the Flush at the end of the history returns nil, then for every data id no
+   point of it is buffered and its points in the chunks are exactly its accepted points.
+   Checked on the real code under concurrency by the h-upstream kind flushers (4-8 goroutines each
+   looping {Write own id; Flush; observe}); fl_ok is this conclusion projected on the caller's own
+   data id, evaluated on the State() snapshot taken right after Flush returned and the broker's
+   ledger; the linearisation is the harness's per-goroutine program order + the observed chunk
+   order (sequence numbers). *)
+Theorem c20_flush_barrier_per_id : forall pol rev0 ops id,
+  let s := r_state (urun (uinit pol rev0) ops) in
+  let r := urun (uinit pol rev0) (ops ++ [Flush]) in
+  snd (ustep s Flush) = 0 ->
+  buf_pts id (u_buf (r_state r)) = [] /\
+  chunks_pts id (chunks_of (r_outs r)) = accepted_pts id (ops ++ [Flush]) (r_rets r).
+Proof. exact flush_barrier_per_id. Qed.
+Print Assumptions c20_flush_barrier_per_id.
+
 (* none / interval policies: a write never causes a transmission *)
 Theorem c20_none_policy : forall s k ps, (u_pol s = PNone \/ u_pol s = PInterval) ->
   snd (fst (ustep s (Write k ps))) = [].
@@ -164,3 +181,9 @@ Proof. vm_compute. repeat split. Qed.
 (* the compact point-list notation of the big-backlog cases *)
 Example c20_prun_example : prun 7 3 9 1 = [(7,9,1); (8,9,1); (9,9,1)].
 Proof. reflexivity. Qed.
+
+(* the concurrent-flushers predicate: a point still buffered after its Flush returned nil is refused *)
+Example c20_fl_example :
+  fl_judge (mkFlCase PNone 6 300 3 [Write 3 [(7,1,1)]; Flush] [0; 0] [([], []); ([(7,1,1)], [])] true) = 0 /\
+  fl_judge (mkFlCase PNone 6 300 3 [Write 3 [(7,1,1)]; Flush] [0; 0] [([], []); ([], [(7,1,1)])] true) = 5.
+Proof. vm_compute. split; reflexivity. Qed.
